@@ -112,10 +112,10 @@ def install_monitors():
     spce, spcem = bm._simulate_price_change_effect, bm._simulate_price_change_effect_multiple_candles
     cfl = bm._check_for_liquidations
 
-    def w_spce(real_candle, exchange, symbol):
+    def w_spce(real_candle, exchange, symbol, *more, **kw):
         rec = REC
         if rec is None:
-            return spce(real_candle, exchange, symbol)
+            return spce(real_candle, exchange, symbol, *more, **kw)
         m = {'mode': 'step', 'time': store.app.time, 'candle': real_candle.copy(), 'symbol': symbol,
              'active_before': [o for o in store.orders.get_active_orders(exchange, symbol) if o.is_active],
              'fills': [], 'events': [], 'orders_before': len(rec.orders), 'liq': None,
@@ -123,16 +123,16 @@ def install_monitors():
         rec.minutes.append(m)
         rec.refs['in_minute'] = True
         try:
-            return spce(real_candle, exchange, symbol)
+            return spce(real_candle, exchange, symbol, *more, **kw)
         finally:
             rec.refs['in_minute'] = False
             m['active_after'] = [o for o in store.orders.get_active_orders(exchange, symbol) if o.is_active]
             m['orders_after'] = len(rec.orders)
 
-    def w_spcem(short_candles, exchange, symbol):
+    def w_spcem(short_candles, exchange, symbol, *more, **kw):
         rec = REC
         if rec is None:
-            return spcem(short_candles, exchange, symbol)
+            return spcem(short_candles, exchange, symbol, *more, **kw)
         m = {'mode': 'fast', 'time': store.app.time, 'candles': short_candles.copy(), 'symbol': symbol,
              'active_before': [o for o in store.orders.get_active_orders(exchange, symbol) if o.is_active],
              'fills': [], 'events': [], 'orders_before': len(rec.orders), 'liq': None,
@@ -140,16 +140,16 @@ def install_monitors():
         rec.minutes.append(m)
         rec.refs['in_minute'] = True
         try:
-            return spcem(short_candles, exchange, symbol)
+            return spcem(short_candles, exchange, symbol, *more, **kw)
         finally:
             rec.refs['in_minute'] = False
             m['active_after'] = [o for o in store.orders.get_active_orders(exchange, symbol) if o.is_active]
             m['orders_after'] = len(rec.orders)
 
-    def w_cfl(candle, exchange, symbol):
+    def w_cfl(candle, exchange, symbol, *more, **kw):
         rec = REC
         if rec is None:
-            return cfl(candle, exchange, symbol)
+            return cfl(candle, exchange, symbol, *more, **kw)
         from jesse.services import selectors
         p = selectors.get_position(exchange, symbol)
         pre = None
@@ -163,7 +163,7 @@ def install_monitors():
                    'leverage': getattr(p.exchange, 'futures_leverage', None), 'fee': p.exchange.fee_rate}
         rec.refs['in_liq'] = True
         try:
-            r = cfl(candle, exchange, symbol)
+            r = cfl(candle, exchange, symbol, *more, **kw)
         finally:
             rec.refs['in_liq'] = False
         if p is not None:
